@@ -51,7 +51,9 @@ def _check_system(spec: project.Spec, system: Any, res: Optional[core.Res]) -> L
         c('moved_objects_checked')
         o = allo.get(new)
         star = system.__dict__.get('_vf_star_in_progress', []) + system.__dict__.get('_vf_from_in_progress', [])
-        if (o is None or (old in allo and allo[old] is not o)) and (spec.modname(rmid), spec.modname(dmid)) in star:
+        # the known mechanism: the import ran while the defining module was being processed *and had not bound the name yet*
+        bound_then = system.__dict__.get('_vf_in_progress_bound', {}).get((spec.modname(rmid), spec.modname(dmid)))
+        if (o is None or (old in allo and allo[old] is not o)) and (spec.modname(rmid), spec.modname(dmid)) in star and (bound_then is None or qual not in bound_then):
             # (what sits at the exported name, if anything, is something the re-exporting module bound itself before the import)
             out.append(('import-from-module-in-progress', f'{old} is re-exported as {new} by an import that ran while {spec.modname(dmid)} was still being processed (import cycle): it is not moved to {new}'))
             not_moved.add(uid)
@@ -109,7 +111,8 @@ def _check_system(spec: project.Spec, system: Any, res: Optional[core.Res]) -> L
                     c('base_refs_checked')
                     if not any(b is target for b in u.baseobjects):
                         out.append((f'consumer-base:{cons["style"]}', f'{u.fullName()} has base written {ref!r}: resolved bases {u.baseobjects!r}, expected {target!r}',
-                                    {'consumer': cmod.fullName(), 'reexporter': spec.modname(rmid)}))
+                                    {'consumer': cmod.fullName(), 'reexporter': spec.modname(rmid),
+                                     'definer_imports_reexporter': spec.defs[uid][0] in spec.notes.get('definers_importing_reexporter', ())}))
             g = cmod.contents.get(f'g{cu}_{i}')
             if g is not None:
                 for name in (ref, old, new):
@@ -233,7 +236,8 @@ def run_case(case: Dict[str, Any]) -> core.Res:
                         # entered before this consumer (which imports nothing but the defining module) was
                         log = system.__dict__.get('_vf_sched_log', [])
                         cn, rx = details[0]['consumer'], details[0]['reexporter']
-                        if cn in log and rx in log and log.index(cn) < log.index(rx):
+                        # (unless the defining module imports the re-exporter itself: importing the definer then brings the move along)
+                        if cn in log and rx in log and log.index(cn) < log.index(rx) and not details[0]['definer_imports_reexporter']:
                             eligible = False
                             res.c('consumer_bases_bound_before_the_move')
                     if repaired is not None and msg not in repaired and eligible:
